@@ -1708,6 +1708,27 @@ def check(pid, tier, seed):
                                                "source text defines them, incl. termination of the source's loops)"
                                                if ok_tr else "UL.SrcTie.TransferParse does not build")
 
+    # the transfer theorems (the property's statements about the source-derived definitions) are audited like the property theorems:
+    # every one of them with the axioms it rests on
+    TRANSFER_OF = {"C11": "Transfer", "C15": "Transfer", "C10": "TransferOps", "C12": "TransferOps", "C17": "TransferOps", "C06": "TransferLikely",
+                   "C07": "TransferLikely", "C08": "TransferLikely", "C14": "TransferLikely", "C01": "TransferParse", "C02": "TransferParse",
+                   "C03": "TransferParse", "C04": "TransferParse", "C05": "TransferParse", "C09": "TransferParse", "C13": "TransferParse",
+                   "C16": "TransferMacros", "C19": "TransferSerde", "C20": "TransferCfg"}
+    transfer_ok = (source_tie or {}).get("transfer_theorems", "") if pid != "C20" else ((cfg_extent or {}).get("config_tie", {}).get("transfer_theorems") or "")
+    if pid in TRANSFER_OF and " built" in (transfer_ok or "") and "does not build" not in transfer_ok:
+        with R.Lock():
+            tthms, trc = R.audit_module("UnicLocale.SrcTie." + TRANSFER_OF[pid], "UL.SrcTie." + TRANSFER_OF[pid])
+        bad_ax = [(n, [a for a in ax if a not in R.ALLOWED_AXIOMS]) for n, ax in tthms]
+        bad_ax = [x for x in bad_ax if x[1]]
+        rec = {"module": "UnicLocale.SrcTie." + TRANSFER_OF[pid], "theorems": [{"name": n, "axioms": ax} for n, ax in tthms],
+               "audit_rc": trc, "outside_allowed_axioms": bad_ax}
+        if pid == "C20":
+            cfg_extent["config_tie"]["transfer_audit"] = rec
+        else:
+            source_tie["transfer_audit"] = rec
+        if bad_ax or trc != 0 or not tthms:
+            log("  transfer theorems: audit problem %s" % (bad_ax or trc))
+
     # ---- correspondence + oracle
     known = [k for k in R.load_known() if k.get("property") == pid and k.get("status") == "known"]
 
